@@ -655,6 +655,16 @@ def w_pruned(failure, tier):
         "alpha", "alpha beta",
         {"type": "function_score", "query": base_q, "functions": [{"type": "field_value_factor", "field": "delta", "factor": 1.0}], "score_mode": "sum", "boost_mode": "multiply"},
         {"type": "script_score", "query": base_q, "script": "_score * delta", "boost": 1.0},
+    ]
+    # a min_score that drops about half of the documents (calibrated on the exhaustive strategy): the score hook then
+    # rejects candidates in the middle of a pruned run
+    mq = {"type": "bool", "should": [base_q, {"type": "term", "field": "body", "value": "beta"}]}
+    cal, _e = drive_search({"schema": None, "schema_add": add, "batches": [docs[:10], docs[10:]], "requests": [dict(REQ_BASE, query=mq, limit=100, execution="bm25")]})
+    if cal and 'ok' in cal[0] and cal[0]['ok']['hits']:
+        sc = sorted(h['score'] for h in cal[0]['ok']['hits'])
+        cut = (sc[len(sc) // 2 - 1] + sc[len(sc) // 2]) / 2.0 if len(sc) > 1 else sc[0]
+        queries.append({"type": "function_score", "query": mq, "functions": [], "min_score": cut})
+    queries += [
         {"type": "bool", "should": [{"type": "term", "field": "body", "value": "alpha", "boost": 2.0}, {"type": "term", "field": "body", "value": "beta"}]},
     ]
     reqs = []
@@ -905,7 +915,68 @@ def w_rescore(failure, tier):
     return dict(found=False, note='rescore: %d (rescore query, window, mode) combinations agree with the documented semantics' % n)
 
 
+# ---------------------------------------------------------------- U23 repeated query terms
+def w_repeat(failure, tier):
+    """a term that occurs twice in a query: the search must answer (no panic), and the three strategies must agree"""
+    docs = [{"_id": "d%d" % i, "body": ("rust " * (1 + i % 3)) + ("search " if i % 2 else "") + "filler"} for i in range(8)]
+    qs = ["rust rust", "rust search rust",
+          {"type": "bool", "should": [{"type": "term", "field": "body", "value": "rust"}, {"type": "term", "field": "body", "value": "rust"}]},
+          {"type": "dis_max", "tie_breaker": 0.5, "queries": [{"type": "term", "field": "body", "value": "rust"}, {"type": "term", "field": "body", "value": "rust", "boost": 2.0}]}]
+    reqs = [dict(REQ_BASE, query=q, limit=10, execution=ex) for q in qs for ex in ("bm25", "wand", "bmw")]
+    rescore = dict(REQ_BASE, query="rust", limit=10, rescore={"window_size": 5, "query": {"type": "bool", "should": [
+        {"type": "term", "field": "body", "value": "search"}, {"type": "term", "field": "body", "value": "search"}]}})
+    reqs.append(rescore)
+    out, err = drive_search({"schema": None, "batches": [docs[:4], docs[4:]], "requests": reqs})
+    if out is None:
+        # the driver reports a panic of the whole batch as a failed run: find the request that does it
+        for r in reqs:
+            o1, e1 = drive_search({"schema": None, "batches": [docs[:4], docs[4:]], "requests": [r]})
+            if o1 is None or 'panic' in str(o1[0]):
+                return dict(found=True, cmd='%s search <<< hex(json)' % BIN, input='8 documents in 2 segments, query %s, execution %s' % (_json.dumps(r['query']), r['execution']),
+                            observed='PANIC / failed run: %s' % (e1 or str(o1))[:300], expected='a response: a repeated query term must not panic (debug builds run the debug_assert)')
+        return dict(found=False, note='search driver failed: %s' % err)
+    for r, o in zip(reqs, out):
+        if 'panic' in o:
+            return dict(found=True, cmd='%s search <<< hex(json)' % BIN, input='8 documents in 2 segments, query %s, execution %s' % (_json.dumps(r['query']), r['execution']),
+                        observed='PANIC ' + str(o['panic'])[:300], expected='a response: a repeated query term must not panic')
+    for i in range(0, len(qs) * 3, 3):
+        hs = [[(h['doc_id'], round(h['score'], 4)) for h in o['ok']['hits']] if 'ok' in o else str(o)[:100] for o in out[i:i + 3]]
+        if hs[0] != hs[1] or hs[0] != hs[2]:
+            return dict(found=True, cmd='%s search <<< hex(json)' % BIN, input='8 documents in 2 segments, query %s under bm25 / wand / bmw' % _json.dumps(reqs[i]['query']),
+                        observed='bm25 %s ; wand %s ; bmw %s' % (hs[0][:4], hs[1][:4], hs[2][:4]), expected='the same hits and scores')
+    return dict(found=False, note='repeated terms: %d requests answered without panic, strategies agree' % len(reqs))
+
+
+# ---------------------------------------------------------------- U8 verify_checksums
+def w_corrupt(failure, tier):
+    """flip one byte of one segment file at a time: opening a reader must fail with an error (never succeed, never panic)"""
+    docs = [{"_id": "d%d" % i, "body": "alpha beta gamma %d" % i} for i in range(6)]
+    flips = []
+    for kind in ("terms", "postings", "docstore", "fast", "meta"):
+        for off in ([0, 1, 2, 3, 5, 8, 13, 21, 34, 55, 89, 144, 233, 377, 610, 987, 1597] if tier == 'quick' else list(range(0, 2000, 7))):
+            for x in (0x01, 0x80, 0xFF):
+                flips.append([kind, off, x])
+    r = drive('corrupt', [_json.dumps({"docs": docs, "flips": flips}).encode()])[0]
+    if not r.startswith('OK '):
+        return dict(found=False, note='corrupt driver failed: %s' % r[:300])
+    n = 0
+    for o in _json.loads(r[3:]):
+        if o['open'].startswith('skipped'):
+            continue
+        n += 1
+        if not o['open'].startswith('err'):
+            return dict(found=True, cmd='%s corrupt <<< hex(json)' % BIN,
+                        input='one segment of 6 documents, byte %d of the %s file (%d bytes) altered, then IndexReader::open' % (o['off'], o['file'], o['len']),
+                        observed='open: %s' % o['open'][:200], expected='an error naming the failed checksum (a single altered byte always changes a CRC-32)')
+    return dict(found=False, note='corruption: %d single-byte alterations of the five segment files are all rejected at open with an error' % n)
+
+
 GENERATORS = {
+    ('U25', 'compact_generation'): w_history,
+    ('U25', 'commit_generation'): w_history,
+    ('U8', 'verify'): w_corrupt,
+    ('U8', 'verify_all'): w_corrupt,
+    ('U23', 'merge_term_weights'): w_repeat,
     ('U17', 'remove_rejected'): w_rescore,
     ('U17', 'window_resort'): w_rescore,
     ('U22', 'window_group'): w_rescore,
@@ -924,6 +995,10 @@ GENERATORS = {
     ('U16', 'admission'): w_pruned,
     ('U16', 'push_top_k'): w_pruned,
     ('U12', 'advance_to'): w_pruned,
+    ('U12', 'new'): w_pruned,
+    ('U12', 'score_candidate'): w_pruned,
+    ('U12', 'score_current'): w_pruned,
+    ('U12', 'block_upper_bound'): w_pruned,
     ('U12', 'skip_to_block'): w_pruned,
     ('U12', 'build_block_meta'): w_pruned,
     ('U13', 'function_values_and_base'): w_explain,
